@@ -491,6 +491,9 @@ func (e *Engine) fork(st *State, c *Term) bool {
 	if r1 == Unknown || r2 == Unknown {
 		st.unchecked = true
 		e.res.Unchecked++
+		if slowLog {
+			fmt.Fprintf(os.Stderr, "  unknown branch at %s: %s\n", posOf(st, e), trunc(c.String(), 300))
+		}
 	}
 	switch {
 	case r1 != Unsat && r2 != Unsat:
